@@ -30,13 +30,13 @@ LOAD_FACTORS = [2, 3, 4, 5, 7, 10, 16, 64, 1000, 1000]
 # op-class weights per property profile.  T token edits, N node-level, V value-level,
 # R reads, C claims, S spacing, D deepcopy, K construct, H obtain handle, X mutate via
 # retained handle, F refusal enumeration.
-BASE = dict(T=2, N=3, V=3, R=1, C=1, S=1, D=1, K=0.5, H=0.7, X=0.7, F=0.0)
+BASE = dict(T=2, N=3, V=3, R=1, C=1, S=1, D=1, K=0.5, H=0.7, X=0.7, F=0.0, A=0.4, Z=0.0)
 PROFILES: dict[str, dict] = {
     'C02': dict(w=dict(BASE, T=8, N=1, V=1, S=0.5), relevant='T'),
     'C03': dict(w=dict(BASE, N=6, V=5, T=0.5), relevant='NV'),
     'C04': dict(w=dict(BASE, R=5, C=5, D=2, N=1, V=1, T=0.5, H=2), relevant='RCDH'),
-    'C05': dict(w=dict(BASE, N=6, V=4, D=2, K=1.5, C=1.5), relevant='NVDKCX', recent_bias=0.6),
-    'C06': dict(w=dict(BASE, N=5, V=5, T=2, S=0, K=1, D=1), relevant='NVT', syntax_safe=True, reparse=True),
+    'C05': dict(w=dict(BASE, N=6, V=4, D=2, K=1.5, C=1.5, A=1.5), relevant='NVDKCXA', recent_bias=0.6),
+    'C06': dict(w=dict(BASE, N=5, V=5, T=2, S=0, K=1, D=1, A=1), relevant='NVTA', syntax_safe=True, reparse=True),
     'C07': dict(w=dict(BASE, N=6, V=2, C=2, S=2, T=2), relevant='NVTCS', big_docs=True),
     'C08': dict(w=dict(BASE, T=6, N=4, V=3, S=2), relevant='NVTS', big_docs=True),
     'C09': dict(w=dict(BASE, V=9, N=1, T=1, S=0, K=0.3), relevant='V', syntax_safe=True, reparse=True,
@@ -44,11 +44,11 @@ PROFILES: dict[str, dict] = {
     'C10': dict(w=dict(BASE, N=4, V=5, H=3, X=5, C=2, T=0.5, S=0.2), relevant='NVXH', handles=True),
     'C11': dict(w=dict(BASE, D=5, N=3, V=3, C=2, T=2), relevant='D', pool_edits=0.45),
     'C14': dict(w=dict(BASE, C=8, N=2, V=2, T=0.5, S=0.5), relevant='C', comment_dense=True),
-    'C17': dict(w=dict(BASE, S=8, C=1.5, N=1.5, V=1.5, T=1), relevant='S', adjacency=True),
+    'C17': dict(w=dict(BASE, S=8, C=1.5, N=1.5, V=1.5, T=1, A=1.5), relevant='S', adjacency=True),
     'C18': dict(w=dict(BASE, V=6, N=3, T=1, S=0.2), relevant='VN', focus_classes=['Transaction', 'Posting', 'MetaItem', 'Open', 'Balance'],
                 indent_play=True),
     'C19': dict(w=dict(BASE, F=4, N=3, V=3, C=1.5, D=1.5, K=1), relevant='F'),
-    'C20': dict(w=dict(BASE, N=3, V=3, T=3, C=3, D=1), relevant='NVTCSD', eq=True),
+    'C20': dict(w=dict(BASE, N=3, V=3, T=3, C=3, D=1, Z=1.0, S=1.5), relevant='NVTCSDZ', eq=True),
 }
 REPARSE_PROPS = {'C06', 'C09'}
 
@@ -393,6 +393,7 @@ class DocSim(core.Engine):
         n_ops = knobs['n_ops']
         sig: list[str] = []
         step = 0
+        foreign_budget = 12
         relevant = profile.get('relevant', '')
         weights = profile['w']
         classes = [c for c in weights if weights[c] > 0 and c not in knobs.get('disabled', [])]
@@ -408,6 +409,13 @@ class DocSim(core.Engine):
                         op = docfaults.gen_F(g) if cls == 'F' else g.gen(cls)
                     except Unresolvable:
                         op = None
+                    except core.HarnessError:
+                        raise
+                    except Exception:
+                        if not res.foreign:
+                            raise
+                        op = None      # the state is already known to be corrupt (another property's clause fired)
+                        break
                     if op is not None:
                         break
                 if op is None:
@@ -420,7 +428,15 @@ class DocSim(core.Engine):
             sub_ops = op['list'] if op['op'] == 'faults' else [op]
             stop = False
             for sub in sub_ops:
-                V, eff = self.one(sess, sub, step, profile, prop)
+                try:
+                    V, eff = self.one(sess, sub, step, profile, prop)
+                except core.HarnessError:
+                    raise
+                except Exception:
+                    if not res.foreign:
+                        raise
+                    stop = True        # corrupt state after a foreign violation: nothing more to learn
+                    break
                 if eff is None:
                     log.append({'n': step, 'op': sub['op'], 'outcome': 'skipped'})
                     stats['op_skipped_unresolvable'] += 1
@@ -432,12 +448,26 @@ class DocSim(core.Engine):
                 if eff.known:
                     res.known_hits.append(eff.known)
                 sig.append(f'{eff.kind}@{eff.target}')
+                if len(sig) > 1:
+                    res.pairs.add(sig[-2].split('@')[0] + '>' + eff.kind)
                 if eff.cls in relevant or (op['op'] == 'faults' and 'F' in relevant):
                     res.relevant_ops += 1
                 log.append({'n': step, 'op': eff.kind, 'target': eff.target, 'outcome': eff.outcome,
                             'text': core.sha(print_model(sess.root))})
+                if V and not any(v.prop == prop for v in V) and foreign_budget > 0 and eff.outcome != 'broken':
+                    foreign_budget += 0
+                    # Only other properties' clauses fired.  Their checks report them; this check goes on for a
+                    # few steps, because on a changed tree its own clause may be a later consequence.  On the
+                    # unchanged tree nothing fires at all, so nothing is reported that the property's own oracle
+                    # did not observe.
+                    foreign_budget -= 1     # at most 12 further steps after the first foreign clause
+                    for v in V:
+                        if (v.prop, v.clause) not in {(x.prop, x.clause) for x in res.foreign}:
+                            stats[f'foreign_seen:{v.prop}/{v.clause}'] += 1
+                            res.foreign.append(v)
+                    V = []
                 if V:
-                    res.violations = V
+                    res.violations = V + [v for v in res.foreign if False]
                     stop = True
                     if os.environ.get('VERIF_DEBUG'):
                         print('--- document at violation ---')
@@ -471,6 +501,22 @@ class DocSim(core.Engine):
             eff = fn(sess, op, step)
         except Unresolvable:
             return [], None
+        except core.HarnessError:
+            raise
+        except Exception as e:
+            # An exception raised by library code while the executor re-reads the state after the call
+            # (views, tokens, values) is a verdict, not a harness failure; one raised by harness code is not.
+            import traceback
+            tb = traceback.extract_tb(e.__traceback__)
+            if not tb or not os.path.realpath(tb[-1].filename).startswith(os.path.realpath(core.REPO_DIR)):
+                raise
+            prop_of = {'seq': 'C10', 'map': 'C10', 'set_raw': 'C03', 'set_wrapper': 'C03', 'set_val': 'C09', 'tok_value': 'C02',
+                       'tok_raw': 'C02', 'comment_indent': 'C02', 'read': 'C04', 'claim': 'C14', 'spacing': 'C17', 'deepcopy': 'C11',
+                       'arith': 'C13', 'eq_zombie': 'C20'}.get(op['op'], 'C05')
+            eff = docops.Effect(op['op'] + ':state_unreadable', '?', '')
+            eff.outcome = 'broken'
+            eff.v(prop_of, 'state_unreadable_after_op', step,
+                  f'after {op["op"]} the library raised {type(e).__name__}: {e} while the result was read back ({tb[-1].name} in {os.path.basename(tb[-1].filename)})')
         V = list(eff.viol)
         what = f'{eff.kind} on {eff.target}'
 
@@ -585,6 +631,7 @@ class DocSim(core.Engine):
         return self._execute(trace, prop, rng)
 
     def replay(self, trace: dict, prop: str) -> core.RunResult:
+        # (the same foreign-violation budget applies, so a replay takes the same path as the original run)
         t = {'knobs': dict(trace['knobs']), 'text': trace['text'], 'ops': copy.deepcopy(trace['ops'])}
         return self._execute(t, prop, None)
 
